@@ -1157,3 +1157,26 @@ _FIFTH = {"C01": fifth_c01, "C02": fifth_c02, "C04": fifth_c04, "C05": fifth_c05
           "C13": fifth_c13, "C16": fifth_c16, "C17": fifth_c17, "C18": fifth_c18, "C19": fifth_c19, "C20": fifth_c20}
 for _pid, _more in _FIFTH.items():
     REGISTRY[_pid] = _merged(REGISTRY[_pid], _more)
+
+
+def _twins5():
+    return {
+        "C05": [
+            V("twin-cache-argument-by-keyword", S, "ElseIf._evaluate__", "                            self.update_cache(right_value, self.right_cache)\n                            yield output",
+              "                            self.update_cache(right_value, cache=self.right_cache)\n                            yield output", kind="twin"),
+            V("twin-key-filter-identity-test", CS, "ConclusionSelector.update_conclusion", "lambda v: not isinstance(v.value, Literal))", "lambda v: isinstance(v.value, Literal) is False)", kind="twin"),
+        ],
+        "C08": [
+            V("twin-restore-order", S, "symbolic_mode", "        if query is not None:\n            query.__exit__()\n        _set_symbolic_mode(prev_mode)",
+              "        _set_symbolic_mode(prev_mode)\n        if query is not None:\n            query.__exit__()", kind="twin"),
+        ],
+        "C04": [
+            V("twin-bare-except-rollback", S, "The.evaluate", "        except BaseException:\n", "        except:\n", kind="twin"),
+            V("twin-abandon-statements-swapped", S, "ForAll._evaluate__", "            if not self.solution_set:\n                self.variable._clear_result_caches_()\n                break",
+              "            if len(self.solution_set) == 0:\n                self.variable._clear_result_caches_()\n                break", kind="twin"),
+        ],
+    }
+
+
+for _pid, _vs in _twins5().items():
+    REGISTRY[_pid] = _merged(REGISTRY[_pid], (lambda vs: (lambda: vs))(_vs))
